@@ -313,6 +313,25 @@ inline void fdrive_unary(const char* prop, const char* type, const char* opname,
             }
         }
     }
+    if (W > 1) {   // uniform vectors: every lane the same value
+        const uint64_t lim = std::min<uint64_t>(n, opt().thorough ? 200000 : 40000);
+        const uint64_t step = n > lim ? n / lim : 1;
+        for (uint64_t j = 0; j < n && c.traps < 200000; j += step) {
+            std::array<T, V::width> a; a.fill(vals[j]);
+            std::array<R, V::width> res;
+            volatile bool ok = false;
+            uint32_t cls = fcls(a[0]) | 0x10;
+            VK_GUARDED(cls, ("uniform,a=" + hex(a[0])), { res = op(V(a)); ok = true; });
+            c.cases++; c.cls_add(cls);
+            if (!ok) continue;
+            for (unsigned i = 0; i < W; ++i) {
+                R exp;
+                if (!model(a[i], exp)) continue;
+                c.lanes++;
+                if (!eq(res[i], exp)) viol("value", fcls(a[i]), (int)i, "a=" + hex(a[i]) + ",uniform=1", hex(res[i]), hex(exp));
+            }
+        }
+    }
     end_cell();
 }
 
@@ -351,6 +370,25 @@ inline void fdrive_binary(const char* prop, const char* type, const char* opname
                 if (!model(a[i], b[i], exp)) continue;
                 c.lanes++;
                 if (!eq(res[i], exp)) viol("value", fpcls(a[i], b[i]), (int)i, "a=" + hex(a[i]) + ",b=" + hex(b[i]), hex(res[i]), hex(exp));
+            }
+        }
+    }
+    if (W > 1) {   // uniform vectors
+        const uint64_t lim = std::min<uint64_t>(n, opt().thorough ? 200000 : 40000);
+        const uint64_t step = n > lim ? n / lim : 1;
+        for (uint64_t j = 0; j < n && c.traps < 200000; j += step) {
+            std::array<T, V::width> a, b; a.fill(pairs[j].a); b.fill(pairs[j].b);
+            std::array<R, V::width> res;
+            volatile bool ok = false;
+            uint32_t cls = fpcls(a[0], b[0]) ^ 0x800;
+            VK_GUARDED(cls, ("uniform,a=" + hex(a[0]) + ",b=" + hex(b[0])), { res = op(V(a), V(b)); ok = true; });
+            c.cases++; c.cls_add(cls & 0xFFF);
+            if (!ok) continue;
+            for (unsigned i = 0; i < W; ++i) {
+                R exp;
+                if (!model(a[i], b[i], exp)) continue;
+                c.lanes++;
+                if (!eq(res[i], exp)) viol("value", fpcls(a[i], b[i]), (int)i, "a=" + hex(a[i]) + ",b=" + hex(b[i]) + ",uniform=1", hex(res[i]), hex(exp));
             }
         }
     }
